@@ -28,7 +28,7 @@ LEVEL_TEXT = ("Proof, for every cell text, category table, chunking and validati
               "get_byte_map's packed table return the value of the unique key equal to the whole cell (free text and its offsets "
               "accumulate correctly across any chunking); a categorical column without free text holds, row by row, the value "
               "listed for the key the cell equals, or the import raises ValueError because some cell equals no key - which of "
-              "the two depends on the cells only, not on the chunking (categorical_property, at full strength since fix NC06d; "
+              "the two depends on the cells only, not on the chunking (categorical_property: a statement about the PROPOSED repair of NC06d, which is not applied to /repo - see the note; "
               "categorical_transform's first_unmatched is the FIRST such row of the chunk: categorical_transform_checked, "
               "first_unmatched_is_first); numeric_bool_transform accepts exactly the documented spellings "
               "(stated over the literal table regenerated from the source), the validation-mode table of transform_int/float, "
@@ -53,10 +53,11 @@ LEVEL_NOTE = ("Parameters, not theorems: the text-to-number parsers (Python int(
               "theorem covers texts rendered with fixed-width decimals in the seven layouts; what parse_timestamp_bytes does with "
               "other texts (unchecked separators) is only compared, not specified. The model is validated against the real importers "
               "by the differential run, not verified against the Python text. Theorems are about the code with fixes D27 (C05), D28, "
-              "D29, NC06a, NC06b, NC06c, NC06d, NC06e, NC06f applied. NC06d (text that is no category, in a categorical column "
-              "without free text, was stored as 0) is repaired by fixes/NC06d_strict_categorical_rejects_unknown_text.patch: "
+              "D29, NC06a, NC06b, NC06c, NC06e, NC06f applied. NC06d (text that is no category, in a categorical column "
+              "without free text, is stored as 0) is an OPEN finding: a repair exists only as the proposal "
+              "fixes/proposed/NC06d_strict_categorical_rejects_unknown_text.patch and is NOT applied to /repo; "
               "the model carries both variants - categoricalTransformChecked / categoricalImportPart / "
-              "categoricalImportChecked mirror the repaired code (categorical_property), categoricalTransform / "
+              "categoricalImportChecked mirror the PROPOSED code (categorical_property is about it), categoricalTransform / "
               "categoricalImport the code as found (categorical_exact_match states the stored 0 outright, "
               "categorical_property_partial, witness in Witness/C06.lean); the driver reports both, and the as-found answer is "
               "accepted by the correspondence only while NC06d is listed open (then the oracle reports it under the finding). "
